@@ -13,9 +13,14 @@ CLAIMED = {
             "stateless model checking of the real client: preemption-bounded DFS over all schedules of the sender / receiver / cancel-watch / peer goroutines and clock steps, crossed with an exhaustive fault enumeration",
             "Seven query scenarios are executed on the real, instrumented ch.Client over a simulated connection inside a synctest bubble. For every fault of the outer enumeration (exception at every peer gate, stream cut and write failure at byte positions, every failing callback, unknown / unexpected / undecodable packets at every gate) every schedule up to the deviation bound stated in the evidence is executed and the closed-or-packet-boundary post-condition is probed with a real Ping and a real follow-up query. Quick completes bound 1 for gate faults (2 around the insert schema exchange) and bound 0 for byte faults; thorough bound 2 everywhere, 3 for the insert scenarios under a budget, bound 1 at every byte.",
             "Trusted: Go runtime + testing/synctest, the instrumentation pass (cmd/vinstr) placing scheduling points at every sync / channel / context / connection operation, x/sync errgroup (instrumented, not assumed). Nothing is claimed beyond the completed bound or for faults outside the enumeration; weak-memory effects are not modelled."),
+    "C10": ("model_checking", "DESIGN.md §4 C10, §2 E1/E2",
+            "stateless model checking of the real client: a canceller thread (or a context deadline fired by the clock pseudo-thread) is placed by the preemption-bounded DFS at every scheduling point of every other thread",
+            "Query scenarios (select, insert, streamed insert, LZ4, telemetry, stalled writes) and the handshake run on the real instrumented client inside a synctest bubble; explicit cancel() and context deadlines (1 s / 5 s fake) with read timeouts 3 s / 100 ms; every schedule up to the bound (quick 1, thorough 2; handshake one more in thorough) is executed and checked for: error matches the context, return within read timeout + 1 s of fake time after the context ended (clock deviations discounted), exactly one well-formed Cancel byte or none, connection and client closed (or, when the cancellation followed EndOfStream, a fully usable client), no library goroutine alive at return.",
+            "Trusted: as C04. A cancellation that lands after the server's EndOfStream was consumed is treated as landing after the query (client may stay open if the C04 probe passes). Failures with a cause of their own that precede the context's end (read time-out of the hello, handshake time-out) are C13's business and are not judged here."),
 }
 
 ENGINE = {
+    "C10": "E1+E2+E3 (checks/sched, vrt/vsched, simnet, refwire)",
     "C04": "E1+E2+E3 (checks/sched, vrt/vsched, simnet, refwire)",
     "C20": "E4-ENUM (cmd/seqw, checks/seq)",
 }
